@@ -35,6 +35,20 @@ func TestC01Proc(t *testing.T) {
 			})
 		}
 	}
+	// a plugin whose process tree keeps the stdout / stderr pipes open after the launched process was killed (a wrapper
+	// script that started a helper in the background): a rejected line, or no line, is still answered within the start timeout
+	nGood := len(cells)
+	for _, launch := range []string{"cmd", "runner"} {
+		for name, first := range map[string]string{"banner text": "echo 'usage: tool [flags]'", "wrong core version": "echo '9|1|tcp|127.0.0.1:1'", "version not offered": "echo '1|7|tcp|127.0.0.1:1'",
+			"unknown network": "echo '1|1|udp|127.0.0.1:1'", "protocol not allowed": "echo '1|1|tcp|127.0.0.1:1|bogus'", "no line at all": "true"} {
+			cells = append(cells, Cell{
+				Name:   fmt.Sprintf("launch=%s rejected line (%s) from a plugin whose background helper keeps the pipes open", launch, name),
+				Plugin: PluginConf{LegacyProto: "netrpc"},
+				Host:   HostConf{Allowed: []string{"netrpc", "grpc"}, TLS: "none", Launch: launch, Legacy: 1, Script: "sleep 12 & " + first + "; exec sleep 30", StartTimeoutMs: 3000},
+				Ops:    []string{"new", "start", "kill"},
+			})
+		}
+	}
 	results := runCells(base, cells)
 	out := &enumResult{Exhaustive: true, Outcomes: map[string]int{}}
 	for i, r := range results {
@@ -46,6 +60,22 @@ func TestC01Proc(t *testing.T) {
 		}
 		if r.HelperErr != "" || r.Panic != "" {
 			bad("%s%s", r.HelperErr, r.Panic)
+			continue
+		}
+		if i >= nGood {
+			for _, o := range r.Ops {
+				if o.Op == "start" {
+					if o.Err == "" {
+						bad("Start accepted the line")
+					}
+					if o.Ms > 9000 {
+						bad("Start returned its error only after %d ms (start timeout 3000 ms)", o.Ms)
+					}
+				}
+				// (how long the following Kill takes is not C01's matter: on the unchanged tree it waits until the last holder
+				// of the pipes is gone — the helper's 25 s — which no property's quantifier covers; noted in DESIGN 9.6)
+			}
+			out.Outcomes["rejected-in-time"]++
 			continue
 		}
 		parts := strings.Split(c.Host.ScriptLine, "|")
